@@ -26,6 +26,30 @@ CHECKS = {
    note=RT_NOTE, technique="TLA+ spec + TLC over all interleavings + outcome comparison of real runs"),
 }
 
+TY_NOTE = ("Trusted: TLC; the vworker request/response protocol; the shape grammar of TypeEnum.tla bounds the inputs (at most 3 names, one constructor "
+           "over atoms plus nested / shift variants); beyond the exhaustive part, environments are a seeded sample.")
+CHECKS.update({
+ "C08": dict(cat="model_checking", design="DESIGN.md 5 C08", engine="TypeEq",
+   text="TypeEq.tla defines equality as the greatest fixpoint (bisimilarity of the unfoldings) over the sub-terms of an environment; every logged call "
+        "of the real types.EqualType (all ordered pairs of names and sub-terms of each environment, run in a crash-isolated worker) must return, and "
+        "return Bisim's answer (invariant CaseOK); IsEquivalence and UnrollInvariant are checked by TLC on the same environments.",
+   note=TY_NOTE, technique="TLA+ greatest-fixpoint specification + TLC validation of a call/return log of EqualType"),
+ "C10": dict(cat="model_checking", design="DESIGN.md 5 C10", engine="TypeDefs",
+   text="WellFormed.tla / ModeInfer.tla define well-formedness of written definitions (defined once, references defined, distinct labels, contractive, "
+        "known and uniform modes, legal shifts, annotations consistent); the verdict of the real parser+Typecheck on each generated definition set must "
+        "equal WFW (invariant VerdictOK) and Unfold of every accepted name must reach a structural type (UnfoldOK).",
+   note=TY_NOTE, technique="TLA+ well-formedness specification + TLC validation of a verdict log of the real front end"),
+ "C16": dict(cat="model_checking", design="DESIGN.md 5 C16", engine="TypeDefs",
+   text="ModeInfer.tla specifies the inferred mode of every type node; the modes the real front end assigned (dumped after Typecheck) must equal it node "
+        "by node (InferenceOK, AllSet); AnnotationStable / OrderIndependent are checked on the specification, and on the real code by re-running permuted "
+        "and explicitly annotated variants.",
+   note=TY_NOTE, technique="TLA+ mode-inference specification + TLC validation of dumped modes + metamorphic re-runs"),
+ "C17": dict(cat="model_checking", design="DESIGN.md 5 C17", engine="Modes",
+   text="All 4/16/64 tuples: the table recorded from the real Modality methods and StringToMode is loaded into Modes.tla and TLC checks the order laws, "
+        "the converse law, sigma monotonicity and the spellings on it. Exhaustive and complete for this finite property.",
+   note="Trusted: TLC and the tabulation in vworker (one call per method and argument pair).", technique="TLA+ laws checked by TLC on the recorded method table (exhaustive)"),
+})
+
 REASON_TODO = "check not built yet (build in progress, see DESIGN.md section 9)"
 
 def main():
@@ -41,6 +65,10 @@ def main():
               "kind_free_text": "TLA+ specification of the polarized interpreter (one action per critical section), checked by TLC"},
              {"name": "GritsRTTrace", "path": "spec/GritsRTTrace.tla", "serves_properties": ["C01", "C02", "C03", "C04"],
               "kind_free_text": "trace specification: recorded hook events of the real interpreter must be a behaviour of GritsRT"},
+             {"name": "TypeEq/WellFormed/ModeInfer/TypeDefs/Modes", "path": "spec/TypeEq.tla", "serves_properties": ["C08", "C10", "C16", "C17"],
+              "kind_free_text": "TLA+ specifications of type equality, well-formedness, mode inference and the mode order; TLC validates call logs of the real library"},
+             {"name": "vworker", "path": "harness/cmd/vworker", "serves_properties": ["C08", "C09", "C10", "C11", "C12", "C15", "C16", "C17"],
+              "kind_free_text": "crash-isolated server for library calls of gertab/Grits"},
              {"name": "vdrive", "path": "harness/cmd/vdrive", "serves_properties": ["C01", "C02", "C03", "C04", "C13", "C19"],
               "kind_free_text": "Go driver linking /repo (tags verif): tracer, gate/replay; vblack = same without the tag"},
          ],
